@@ -958,11 +958,11 @@ func report(c *fw.Ctx, k kase, r result) {
 // enumeration
 
 type enumerator struct {
-	c    *fw.Ctx
-	idx  int64
-	stop bool
-	nont int64
-	done int64
+	c     *fw.Ctx
+	idx   int64
+	stop  bool
+	nont  int64
+	done  int64
 	table map[string]int
 }
 
@@ -1281,10 +1281,18 @@ func enumerate(e *enumerator) {
 			}
 		}
 	}
+	tripleAlpha := alpha
+	if !th {
+		// quick: the complete cube over a 14-letter sub-alphabet
+		tripleAlpha = nil
+		for _, i := range []int{0, 2, 6, 7, 8, 9, 11, 13, 16, 17, 18, 19, 20, 22} {
+			tripleAlpha = append(tripleAlpha, alpha[i])
+		}
+	}
 	for _, wc := range tripleWorlds {
-		for _, t1 := range alpha {
-			for _, t2 := range alpha {
-				for _, t3 := range alpha {
+		for _, t1 := range tripleAlpha {
+			for _, t2 := range tripleAlpha {
+				for _, t3 := range tripleAlpha {
 					e.do(kase{SBal: wc.sb, RBal: "0", CBal: wc.cb, Prog: wc.prog, Settle: true, Blocks: [][]txSpec{{t1, t2, t3}}})
 					e.do(kase{SBal: wc.sb, RBal: "0", CBal: wc.cb, Prog: wc.prog, Settle: true, Blocks: [][]txSpec{{t1}, {t2}, {t3}}})
 				}
